@@ -649,8 +649,12 @@ fn main() {
         };
         let _: Option<GHeader> = None;
         if ctx.quick() {
-            let cfg = mk(false, true, false);
+            let cfg = mk(false, false, false);
             ctx.harness(Config::new("sam_record_k2", 2), |ch| record_body(ch, &cfg));
+            // the >65535-op CIGAR (CG convention across SAM <-> BAM) costs ~30 ms per execution: every single
+            // deviation in the quick tier, pairs in the thorough tier
+            let cfg = mk(false, true, true);
+            ctx.harness(Config::new("sam_record_long_k1", 1), |ch| record_body(ch, &cfg));
             let shape = HeaderShape::quick();
             ctx.harness(Config::new("sam_header_k2", 2), |ch| header_body(ch, &shape));
         } else {
